@@ -18,7 +18,7 @@ EX == INSTANCE Exec     \* the generic block formulas (C07 / C08 / C14) are eval
 VARIABLES l, tname, g, env, pending, viol, drift
 tvars == <<l, tname, g, env, pending, viol, drift>>
 
-Env0 == [svc |-> <<>>, h |-> 0, bxh |-> "", unordered |-> {}, admins |-> {}, relay |-> <<>>, rule |-> <<>>, chain |-> <<>>, rl |-> <<>>, nd |-> <<>>, rtyp |-> <<>>, grant |-> 0]
+Env0 == [svc |-> <<>>, h |-> 0, bxh |-> "", unordered |-> {}, admins |-> {}, relay |-> <<>>, rule |-> <<>>, chain |-> <<>>, rl |-> <<>>, nd |-> <<>>, rtyp |-> <<>>, grant |-> 0, ra |-> <<>>]
 Init == l = 0 /\ tname = "" /\ g = GInit /\ env = Env0 /\ pending = FALSE /\ viol = {} /\ drift = {} /\ TLCSet(1, 0)
 
 SvcMap(list) == [s \in {x.svc : x \in ToSet(list)} |-> (CHOOSE x \in ToSet(list) : x.svc = s).st]
@@ -189,7 +189,8 @@ BlockStep(e) ==
                       LifecycleViol("service", ServiceEdges, env.svc, SvcMap(e.svc), ngov)
                       \cup LifecycleViol("appchain", AppchainEdges, env.chain, ChainMap(e.chains, e.relay), ngov)
                       \cup LifecycleViol("role", RoleEdges, env.rl, StMap(e.rlist), ngov)
-                      \cup LifecycleViol("node", NodeEdges, env.nd, StMap(e.nlist), ngov)),
+                      \cup LifecycleViol("node", NodeEdges, env.nd, StMap(e.nlist), ngov)
+                      \cup LifecycleViol("rule", RuleEdges, env.ra, StMap(e.rall), ngov)),
       d |-> r.d, src |-> srcChainOf, pre |-> r.g]
 
 \* C14, grant clause: the sum of all balances may grow only by the documented grant to a NEWLY APPROVED governance or
@@ -215,7 +216,7 @@ Step(e) ==
             /\ g' = GInit /\ pending' = FALSE /\ chainOfId' = <<>>
             /\ env' = [svc |-> SvcMap(e.svc), h |-> e.h, bxh |-> e.bxh, unordered |-> {e.bxh \o ":" \o u : u \in ToSet(e.unordered)},
                        admins |-> ToSet(e.admins), relay |-> RelayMap(e.relay), rule |-> RuleMap(e.rules), chain |-> ChainMap(e.chains, e.relay),
-                       rl |-> StMap(e.rlist), nd |-> StMap(e.nlist), rtyp |-> TypMap(e.rlist), grant |-> e.grant]
+                       rl |-> StMap(e.rlist), nd |-> StMap(e.nlist), rtyp |-> TypMap(e.rlist), grant |-> e.grant, ra |-> StMap(e.rall)]
             /\ viol' = viol \cup (IF e.setupEqual THEN {} ELSE {<<nm, l + 1, "C01_SetupDiverged", 0>>})
             /\ drift' = drift
        [] e.ev = "Submit" -> /\ pending' = TRUE /\ UNCHANGED <<g, env, viol, drift, chainOfId>>
@@ -226,7 +227,7 @@ Step(e) ==
                 tv2 == TmetaViol(b.pre, e.h, e.tmeta, cmap)
             IN /\ g' = b.g /\ pending' = FALSE /\ chainOfId' = cmap
                /\ env' = [env EXCEPT !.svc = SvcMap(e.svc), !.h = e.h, !.relay = RelayMap(e.relay), !.rule = RuleMap(e.rules), !.chain = ChainMap(e.chains, e.relay),
-                                     !.rl = StMap(e.rlist), !.nd = StMap(e.nlist), !.rtyp = TypMap(e.rlist)]
+                                     !.rl = StMap(e.rlist), !.nd = StMap(e.nlist), !.rtyp = TypMap(e.rlist), !.ra = StMap(e.rall)]
                /\ viol' = viol \cup {<<nm, l + 1, x[1], x[2]>> : x \in b.v \cup tv2 \cup GrantAware(e, env)}
                /\ drift' = drift \cup {<<nm, l + 1, x>> : x \in b.d}
        [] e.ev \in {"ExecError", "Crashed"} ->
